@@ -22,3 +22,5 @@ package transaction
 //@   requires rs != nil
 //@   modifies staged, txStatus
 //@   ensures [C14] old(get2(txStatus, rs, sid(id))) == "committed" ==> err != nil && staged == old(staged)
+//@   requires get2(txStatus, rs, sid(id)) == "" ==> forall(x, !member2(staged, rs, x))
+//@   crash-invariant [C14] get2(txStatus, rs, sid(id)) == "" ==> forall(x, !member2(staged, rs, x))
